@@ -1,6 +1,7 @@
 """C08 — instruction encodings agree with the architecture reference (RV32.tla, X64.tla; idioms M + G + E)."""
 from harness import asmgen
 from harness import armgen
+from harness import x64gen
 
 
 def report(ctx, prop, verdicts, what):
@@ -39,6 +40,7 @@ class Engine:
     def run(self, ctx):
         thorough = (ctx.only.get("tier", ctx.tier) if ctx.only else ctx.tier) == "thorough"
         if armgen.c08_part(ctx, thorough): return  # thumb / arm (tla/Thumb.tla, tla/Arm32.tla); True: a replay of one of its cases
+        if x64gen.c08_part(ctx, thorough): return  # x86_64 (tla/X64.tla); True: a replay of one of its cases
         ctx.rule("every concrete instruction class of ppci.arch.riscv (isa, rvcisa) x {each register slot swept over "
                  "x0..x31, diagonal, every in-range boundary immediate / displacement enumerated by TLC from "
                  "RV32.FieldRange, symbol addresses for %hi/%lo forms}; bytes = encode() (+ own relocation applied; "
@@ -74,55 +76,3 @@ class Engine:
         if thorough and ctx.only is None:
             asmgen.llvm_crosscheck(ctx, [r["out"]["bytes"] for r in recs if "out" in r and r["out"]["ok"]] +
                                    [b for r in recs if "seq" in r for b in r["seq"]])
-        if ctx.only is None:
-            run_x86_64(ctx, thorough)
-
-
-def run_x86_64(ctx, thorough):
-    """x86_64: X64.Decode(bytes ppci emitted) designates the operation and operands ppci prints."""
-    from harness import x64gen
-    ctx.rule(ctx.cov["rule"] + " || x86_64: every concrete instruction class of get_arch('x86_64').isa (integer, sse1, sse2) x "
-             "every addressing-mode constructor of its r/m operand (RmMem, RmMemDisp, RmMemDisp2, RmReg*, RmXmmReg*, RmRip, "
-             "RmAbs, RmAbsLabel) x {defaults; every register of the operand's register class in the instruction's own slots, in "
-             "the register r/m alternative and as base of RmMem}; for one class per encoding base class / operand width (all "
-             "classes in the thorough tier) also every register in every constructor slot, diagonals, base in {rax rsp rbp r12 "
-             "r13} x displacements {-129 -128 -127 -1 0 1 127 128 129, +-2^31 edges, 2^32-1}, boundary immediates of 8/16/32/64 "
-             "bits, label distances / addresses (the instruction's own relocation applied); bytes = encode(); TLC: "
-             "Agrees(X64.Decode(bytes), tokenised printed text); distinct = distinct (class, mode, tag, printed text, symbol)")
-    ctx.assume("x86_64: lexical tokenisation of the printed text (harness/x64gen.py: tokenize); the operand width of a class "
-               "whose printed text shows no register (neg [rbx]) is the width of the register alternative of its r/m operand; "
-               "'jmpshort' is read as jmp with an 8-bit displacement, 'call *reg' as call reg")
-    if ctx.only is None:
-        x64gen.laws(ctx, ["fld", "tab", "enc", "adr", "kat"], thorough)
-    recs, skipped = x64gen.enc_records("C08", ctx.rng, thorough)
-    agg = {}
-    for k, n in skipped.items():
-        kk = k.split(":")
-        agg[kk[0] + ":" + kk[-1]] = agg.get(kk[0] + ":" + kk[-1], 0) + n
-    for k, n in sorted(agg.items()):
-        ctx.note("x86_64: %d instance(s) %s: nothing emitted, not judged" % (n, k))
-    recs = restrict(ctx, recs)
-    for r in recs:
-        ctx.count(r["key"])
-    for r in recs[:: max(1, len(recs) // 3)][:3]:
-        ctx.sample({"key": r["key"], "bytes": r["out"]["bytes"]})
-    verdicts = x64gen.judge(ctx, recs, ["SyntaxKnown", "Decodable", "EncodingAgrees", "OperandSizeAgrees"], "E: C08 x86_64 records")
-    unknown = undec = 0
-    for rec, clause, v in verdicts:
-        if clause == "SyntaxKnown":
-            unknown += 1
-        elif clause == "Decodable":
-            undec += 1
-        else:
-            st = v.get("st")
-            got = {"ok": "decode to '%s ...'" % v.get("dmn"), "ud": "are an undefined opcode", "short": "are a truncated instruction"}.get(st, st)
-            ctx.violation(rec["key"], "bytes %s %s, not the printed '%s'%s [clause %s]" % (
-                bytes(rec["out"]["bytes"]).hex(), got, rec["text"],
-                " (operand width of the class: %d bits)" % rec["msz"] if clause == "OperandSizeAgrees" else "", clause),
-                {"record": rec, "clause": clause, "verdict": v})
-    if unknown:
-        ctx.note("x86_64: %d instance(s) printed in a syntax outside the modelled assembly: no verdict" % unknown)
-    if undec:
-        ctx.note("x86_64: %d instance(s) whose bytes are outside the decoder's opcode subset: no verdict" % undec)
-    if thorough and ctx.only is None:
-        x64gen.objdump_crosscheck(ctx, [r["out"]["bytes"] for r in recs])
